@@ -43,12 +43,19 @@ def main(tier):
         act = rng.choice(["float", "qint8", "qint8", "qfloat8_e4m3fn", "qfloat8_e5m2"])
         wq = rng.choice(["qint8", "qint8", "qfloat8_e4m3fn", "qfloat8_e5m2", "qint4", "qint2"])
         rows = rng.choice([1, 2, 7, 8, 15, 16, 17, 24, 32, 64])
-        lead = rng.choice([[rows], [2, rows], [2, 2, rows]]) if rows <= 17 else [rows]
+        lead = rng.choice([[rows], [2, rows], [2, 2, rows], [3, rows]]) if rows <= 17 else [rows]
+        if rng.random() < 0.04:
+            lead = []  # an input without batch dimensions
         inf, outf = rng.choice(feats), rng.choice(feats[:14])
         c = {"id": i, "seed": ck.seed * 7 + i, "op": "linear", "dtype": dtype, "act": act, "wq": wq, "lead": lead, "in": inf, "out": outf, "bias": rng.random() < 0.5,
              "exact": rng.random() < 0.3 and wq in ("qint8",) and act in ("float", "qint8") and inf <= 64}
         if wq in ("qint4", "qint2"):
             c["group_size"] = None
+        if not c["exact"]:
+            if len(lead) >= 2 and rng.random() < 0.3:
+                c["layout"] = "transposed"
+            if act == "float" and rng.random() < 0.3:
+                c["xmag"] = rng.choice([30.0, 100.0])  # large unscaled sums: accumulation must not overflow the output dtype early
         cases.append(c)
     for i in range(n // 5):
         dtype = rng.choice(["float32", "float16", "bfloat16"])
@@ -62,6 +69,13 @@ def main(tier):
     cases.append({"id": len(cases), "seed": 1, "op": "linear", "dtype": "float16", "act": "qfloat8_e4m3fn", "wq": "qfloat8_e4m3fn", "lead": [2], "in": 512, "out": 4, "bias": False, "ones": 12.0, "directed": "f16 accumulation"})
     cases.append({"id": len(cases), "seed": 2, "op": "linear", "dtype": "bfloat16", "act": "float", "wq": "qint8", "lead": [2], "in": 20, "out": 4, "bias": False, "directed": "int8pack in%16"})
     cases.append({"id": len(cases), "seed": 3, "op": "linear", "dtype": "bfloat16", "act": "float", "wq": "qint8", "lead": [2], "in": 32, "out": 4, "bias": True})
+    # directed: float16 activations of large magnitude x float8 weights (unscaled sums beyond 65504 although the scaled result is representable)
+    for k, wq_ in enumerate(["qfloat8_e4m3fn", "qfloat8_e5m2", "qint8"]):
+        cases.append({"id": len(cases), "seed": 4 + k, "op": "linear", "dtype": "float16", "act": "float", "wq": wq_, "lead": [3], "in": 256, "out": 8, "bias": False, "xmag": 100.0, "exact": False})
+    # directed: transposed (non-contiguous) quantized activations on the integer GEMM route; inputs without batch dimensions
+    cases.append({"id": len(cases), "seed": 8, "op": "linear", "dtype": "float32", "act": "qint8", "wq": "qint8", "lead": [3, 5], "in": 16, "out": 8, "bias": True, "layout": "transposed", "exact": False})
+    cases.append({"id": len(cases), "seed": 9, "op": "linear", "dtype": "float32", "act": "float", "wq": "qint8", "lead": [], "in": 16, "out": 8, "bias": True, "exact": False})
+    cases.append({"id": len(cases), "seed": 10, "op": "linear", "dtype": "float32", "act": "qint8", "wq": "qint8", "lead": [], "in": 16, "out": 8, "bias": False, "exact": False})
     res = []
     B = 40
     for s in range(0, len(cases), B):
@@ -90,6 +104,12 @@ def main(tier):
             ck.violation(f"result dtype {r['dtype']} is not the activation dtype {dtype}", {"case": cfg, "observed": r})
 
         def judge(st, label):
+            if "ref_shape" in st:
+                what = f"{label}: result has shape {st['shape']} but the product of the dequantized operands has shape {st['ref_shape']}"
+                if not c.get("lead", [0]):
+                    what += " (1-D input without batch dimensions)"
+                ck.violation(what, {"case": cfg, "observed": st})
+                return
             representable = st["refmax"] < FMAX[dtype] * (1 - 2 * u)
             if representable and not st["finite"]:
                 what = f"{label}: result is not finite although the reference ({st['refmax']:.6g}) is representable in {dtype}"
